@@ -256,7 +256,9 @@ Definition own_node (its : list ritem) : mnode :=
   MNode (level_traits its) (sm_of_list (flat_map item_sub its)).
 
 (* ------------------------------------------------------------------ realms *)
-Inductive rval := RInt (z : Z) | RChar (c : N) | RStr (b : bytes).
+(* RFloat carries the value times 10^4 (the specification covers decimal texts with at most four
+   fractional digits; f8c sorts and de-duplicates them as doubles, which is the same order) *)
+Inductive rval := RInt (z : Z) | RChar (c : N) | RStr (b : bytes) | RFloat (z : Z).
 
 Definition is_digit (c : N) : bool := (48 <=? c) && (c <=? 57).
 Fixpoint digits_val (acc : N) (l : bytes) : option N :=
@@ -273,9 +275,28 @@ Definition parse_int (l : bytes) : option Z :=
   | _ => match parse_nat l with Some n => Some (Z.of_N n) | None => None end
   end.
 
+(* digits[.digits{0,4}] -> value * 10^4 *)
+Fixpoint split_dot (l : bytes) (acc : bytes) : bytes * option bytes :=
+  match l with
+  | [] => (rev acc, None)
+  | c :: tl => if c =? 46 then (rev acc, Some tl) else split_dot tl (c :: acc)
+  end.
+Definition parse_dec4 (l : bytes) : option Z :=
+  match split_dot l [] with
+  | (ip, None) => match parse_nat ip with Some n => Some (Z.of_N (n * 10000)) | None => None end
+  | (ip, Some fr) =>
+      if Nat.leb (length fr) 4 then
+        match parse_nat ip, digits_val 0 (fr ++ repeat 48 (4 - length fr)) with
+        | Some n, Some f => Some (Z.of_N (n * 10000 + f))
+        | _, _ => None
+        end
+      else None
+  end.
+
 Definition rval_of (ty : N) (e : bytes) : option rval :=
   if is_int_ty ty then match parse_int e with Some z => Some (RInt z) | None => None end
   else if is_char_ty ty then Some (RChar (match e with c :: _ => c | [] => 0 end))   (* CharRealm(from[0]) *)
+  else if is_float_ty ty then match parse_dec4 e with Some z => Some (RFloat z) | None => None end
   else if is_string_ty ty then Some (RStr e)
   else None.
 
@@ -285,6 +306,7 @@ Definition rkey (v : rval) : key :=
   | RInt z => [Z.to_N (z + 2147483648)]
   | RChar c => [c]
   | RStr b => b
+  | RFloat z => [Z.to_N (z + 2147483648)]
   end.
 
 Record realm := mkRealm { r_range : bool; r_ty : N; r_vals : list (key * (rval * bytes)) }.
